@@ -82,6 +82,26 @@ class HOther(HBase):
     pass
 
 
+class Event:
+    """two PREDICATE printers accept Events: the first-registered one only those without payload, the later one all of them - which one prints
+    a value must not depend on which Events were printed before"""
+    def __init__(self, name, payload):
+        self.name, self.payload = name, payload
+
+    def __repr__(self):
+        return '<Event %s>' % self.name
+
+
+@register_pretty(predicate=lambda v: type(v) is Event and v.payload is None)
+def pretty_empty_event(v, ctx):
+    return prettyprinter.pretty_call(ctx, 'Event.empty', v.name)
+
+
+@register_pretty(predicate=lambda v: type(v) is Event)
+def pretty_any_event(v, ctx):
+    return prettyprinter.pretty_call(ctx, Event, v.name, payload=v.payload)
+
+
 class MRec:
     """printer registered BY NAME when this module is imported: it stays pending until some print needs it"""
 
@@ -193,6 +213,9 @@ def build_corpus(quick):
     add('hsub', HSub(1))
     add('hbase', HBase(2))
     add('hother-nested', [HOther(3), HSub(4)])
+    add('event-full', Event('a', [1, 2]))
+    add('event-empty', Event('ping', None))
+    add('event-mixed', [Event('x', None), Event('y', 2), Event('z', None)])
     add('mpoint', MPoint((1, 2)))
     add('mrec', MRec())
     add('mmap', MMap(a=1))
@@ -411,6 +434,8 @@ def run_shard(sh):
         ['gmtime', 'hostile-struct_time', 'gmtime', 'stat_result', 'sys.flags', 'version_info'],
         ['cyclic-list', 'shared', 'cyclic-dict', 'cyclic-list', 'shared'],
         ['commented-dict', 'commented', 'commented-top', 'commented-dict'],
+        ['event-full', 'event-empty', 'event-mixed', 'event-empty', 'event-full'],
+        ['event-mixed', 'event-full', 'event-empty'],
         ['mpoint', 'mrec', 'mpoint', 'mmap', 'mlist-nested'],
         ['mmap', 'mlist-nested', 'mpoint', 'mrec', 'mmap', 'mlist-nested', 'mpoint'],
         list(reversed(names)),
